@@ -202,6 +202,7 @@ def focused(tier):
         out.append(two_class_single("slotted 2class %s" % disc, fam, K=2, T=8.0, prios=(1, 0),
                                     c={"slotted": {"slots": [1.0, 2.0, 3.0], "sizes": [1, 2, 1], "capacitated": False, "preempt": False}},
                                     nodekw={"discipline": disc}, features=["slotted", "priorities", disc]))
+    out += ageing_priorities(tier)
     return out
 
 
